@@ -70,6 +70,7 @@ type Exec struct {
 	entryVars map[string]SV
 	inlineDepth int
 	recordAll bool
+	onExit func(st *State) // the process terminates (os.Exit): evaluate the postconditions like at a return
 }
 
 // Hooks let stage 2 observe memory and call events.
@@ -265,7 +266,11 @@ func (e *Exec) val(st *State, v ssa.Value) SV {
 }
 
 func (e *Exec) fnId(f *ssa.Function) Term {
-	return e.ctx.constSym("fn:"+f.String(), SInt)
+	t := e.ctx.constSym("fn:"+f.String(), SInt)
+	if e.ctx.symAxiom[t.S] == "" {
+		e.ctx.symAxiom[t.S] = "(assert (not (= " + t.S + " 0)))"
+	}
+	return t
 }
 
 func (e *Exec) constVal(c *ssa.Const) SV {
@@ -406,7 +411,7 @@ func (e *Exec) loopHeader(fr *frame, li *loopInfo, b, pred *ssa.BasicBlock, st *
 	e.evalPhis(b, pred, st)
 	vars := e.loopVars(fr, li, st)
 	for _, inv := range li.spec.Invariants {
-		g, err := e.evalSpecBool(inv.Expr, &specEnv{into: st, st: st, old: e.entry, vars: vars, oldVars: e.entryVars, fr: fr, pkg: pkgOf(fr.fn)})
+		g, err := e.evalSpecBool(inv.Expr, &specEnv{goal: true, into: st, st: st, old: e.entry, vars: vars, oldVars: e.entryVars, fr: fr, pkg: pkgOf(fr.fn)})
 		if err != nil {
 			e.errorf("%s: invariant %s: %v", name, inv.Label, err)
 			continue
@@ -945,6 +950,12 @@ func (e *Exec) execInstrs(fr *frame, b *ssa.BasicBlock, i int, st *State) {
 			}
 			idx := i
 			e.call(fr, x, st, func(st2 *State, res SV) {
+				if st2.exited {
+					if e.onExit != nil {
+						e.onExit(st2)
+					}
+					return
+				}
 				if v, ok := in.(ssa.Value); ok {
 					res.T = v.Type()
 					st2.env[v] = res
@@ -1103,6 +1114,7 @@ func (e *Exec) step(fr *frame, in ssa.Instruction, st *State) {
 		st.env[x] = SV{T: x.Type(), L: tup.L[lo:hi]}
 	case *ssa.MakeClosure:
 		fn := x.Fn.(*ssa.Function)
+		st.pc = append(st.pc, Not(Eq(e.fnId(fn), IntLit(0))))
 		var binds []SV
 		for _, b := range x.Bindings {
 			binds = append(binds, e.val(st, b))
